@@ -16,7 +16,10 @@ for p in $props; do
     rsync -a --exclude .git /repo/ "$tmp/repo/"
     if ! (cd "$tmp/repo" && patch -s -p1 < "$OLDPWD/$patch"); then echo "SELFTEST-ERROR $p/$name: patch does not apply"; bad=1; rm -rf "$tmp"; continue; fi
     genonly=""; case "$p" in C15|C34|C33) genonly="${SELFTEST_GEN_ONLY:-vlists}";; C17) genonly="${SELFTEST_GEN_ONLY:-venums,vneg}";; esac   # generated-code properties: one corpus schema is enough to exercise a template
-    out=$(VERIF_GEN_ONLY="$genonly" bin/govc check -prop "$p" -repo "$tmp/repo" -verif "$tmp/verif" 2>&1); code=$?
+    # must-fail cases only need some obligation to fail: a short solver timeout and replay budget keep them quick
+    # (a shorter timeout can only add failures); must-pass cases run with the check's own settings
+    tmo=30; budget="${VERIF_FAIL_BUDGET_S:-}"; case "$name" in mustfail-*) tmo=8; budget="${VERIF_FAIL_BUDGET_S:-20}";; esac
+    out=$(VERIF_FAIL_BUDGET_S="$budget" VERIF_GEN_ONLY="$genonly" bin/govc check -prop "$p" -timeout "$tmo" -repo "$tmp/repo" -verif "$tmp/verif" 2>&1); code=$?
     case "$name" in
       mustfail-*) want=1;;
       mustpass-*) want=0;;
